@@ -192,11 +192,12 @@ func checkFieldAssignment(
 		return nil
 	}
 
-	if ptr, ok := receiverType.(*types.Pointer); ok {
+	// a type alias stands for the type it denotes
+	if ptr, ok := types.Unalias(receiverType).(*types.Pointer); ok {
 		receiverType = ptr.Elem()
 	}
 
-	named, ok := receiverType.(*types.Named)
+	named, ok := types.Unalias(receiverType).(*types.Named)
 	if !ok {
 		return nil
 	}
@@ -246,11 +247,12 @@ func checkIndexAssignment(
 		return nil
 	}
 
-	if ptr, ok := receiverType.(*types.Pointer); ok {
+	// a type alias stands for the type it denotes
+	if ptr, ok := types.Unalias(receiverType).(*types.Pointer); ok {
 		receiverType = ptr.Elem()
 	}
 
-	named, ok := receiverType.(*types.Named)
+	named, ok := types.Unalias(receiverType).(*types.Named)
 	if !ok {
 		return nil
 	}
@@ -322,11 +324,12 @@ func checkFieldIncDec(
 		return nil
 	}
 
-	if ptr, ok := receiverType.(*types.Pointer); ok {
+	// a type alias stands for the type it denotes
+	if ptr, ok := types.Unalias(receiverType).(*types.Pointer); ok {
 		receiverType = ptr.Elem()
 	}
 
-	named, ok := receiverType.(*types.Named)
+	named, ok := types.Unalias(receiverType).(*types.Named)
 	if !ok {
 		return nil
 	}
@@ -444,11 +447,12 @@ func checkCompoundLHS(
 		return nil
 	}
 
-	if ptr, ok := receiverType.(*types.Pointer); ok {
+	// a type alias stands for the type it denotes
+	if ptr, ok := types.Unalias(receiverType).(*types.Pointer); ok {
 		receiverType = ptr.Elem()
 	}
 
-	named, ok := receiverType.(*types.Named)
+	named, ok := types.Unalias(receiverType).(*types.Named)
 	if !ok {
 		return nil
 	}
